@@ -105,6 +105,49 @@ theorem deserialize_last_line (S : Schema) (ty : String) (d : StructDef) :
   dsimp only
   exact List.getLast?_concat ..
 
+/-! ### the whole module text (`moduleLines`) -/
+
+/-- the file starts with the fixed header, whatever the schema -/
+theorem module_starts_with_header (S : Schema) : moduleHeader <+: moduleLines S := by
+  unfold moduleLines
+  rw [List.append_assoc]
+  exact List.prefix_append _ _
+
+/-- every declaration's class text is part of the file, and every abstract struct's factory class too: the classes written
+    are exactly those of the emission plan -/
+theorem module_contains_every_class (S : Schema) (n : String) (t : TypeDef) (h : (n, t) ∈ S) :
+    ∀ l ∈ typeClass S n t, l ∈ moduleLines S := by
+  intro l hl
+  unfold moduleLines
+  simp only [List.mem_append, List.mem_flatMap]
+  exact Or.inl (Or.inr ⟨(n, t), h, Or.inl hl⟩)
+
+/-- a class text begins with its `class` line -/
+theorem class_header_first (name base : String) (fields : List (List String)) (methods : List Method) :
+    (classLines name base fields methods).head? = some ("class " ++ name ++ base ++ ":") := by
+  simp [classLines]
+
+/-- every settable member has an accessor of the same name and the setters come in the same (layout) order: the names of the
+    setter methods are the first names of the getter methods -/
+theorem setters_match_getters (d : StructDef) :
+    (setterMethods d).map (·.name) <+: (getterMethods d).map (·.name) := by
+  unfold setterMethods getterMethods
+  simp only [List.map_append, List.map_map]
+  exact List.prefix_append _ _
+
+/-- accessors exist exactly for the value-carrying own members that are not the leading `size` member -/
+theorem setter_names (d : StructDef) :
+    (setterMethods d).map (·.name) = (nonReservedOwn d).map fun f => printerName f.name := by
+  unfold setterMethods
+  simp [List.map_map, Function.comp_def]
+
+/-- the method order of a struct class is fixed: `sort` first after the optional constructor and comparer, the codec methods
+    after the accessors, `__str__` and `to_json` last -/
+theorem struct_methods_end (S : Schema) (ty : String) (d : StructDef) :
+    ∃ before, structMethods S ty d = before ++
+      [({ name := "__str__", result := "str", body := strBody S d } : Method), ({ name := "to_json", body := jsonBody S d } : Method)] :=
+  ⟨_, rfl⟩
+
 example : emissionPlan [("A", .int 1 false), ("B", .struct { fields := [], abstract := true }), ("C", .struct { fields := [] })]
     = ["A", "B", "C", "BFactory"] := by decide
 
